@@ -24,7 +24,7 @@ import tempfile
 import codec
 from common import Sym
 
-COMPONENTS = ['escape', 'version', 'json']
+COMPONENTS = ['filter', 'escape', 'version', 'json']
 
 ALLOWED_EVENTS = {'compile', 'exec', 'builtins.id'}
 
